@@ -272,7 +272,7 @@ fn c06_project(ctx: &mut Ctx, b: &Built, r: &mut StdRng) {
     }
     // 3. option mismatch and source edits, judged by the build run right after
     let srcs = model::sources(&b.case.files);
-    for step in ["flip-trailing", "edit-append-text", "edit-append-empty-directive"] {
+    for step in ["flip-trailing", "edit-append-text", "edit-append-empty-directive", "edit-append-failing-directive"] {
         let mut trailing = b.case.trailing;
         let mut restore: Option<(String, Vec<u8>)> = None;
         match step {
@@ -285,7 +285,11 @@ fn c06_project(ctx: &mut Ctx, b: &Built, r: &mut StdRng) {
                 if !text.is_empty() && !text.ends_with(b"\n") {
                     text.extend_from_slice(le);
                 }
-                text.extend_from_slice(if step == "edit-append-text" { b"appended by the harness" } else { b"<!--e TXTPP# appended" });
+                text.extend_from_slice(match step {
+                    "edit-append-text" => &b"appended by the harness"[..],
+                    "edit-append-failing-directive" => &b"<!--e TXTPP#include file-that-was-removed-after-the-build.txt"[..],
+                    _ => &b"<!--e TXTPP# appended"[..],
+                });
                 text.extend_from_slice(le);
                 std::fs::write(b.root.join(s), &text).unwrap();
                 restore = Some((s.clone(), old));
@@ -616,7 +620,7 @@ pub fn info_c08() -> PropInfo {
     PropInfo {
         id: "C08",
         level: "fault_enumeration",
-        rule: "generated successful projects; reference tree = build from no generated files. (1) pre-states: every generated path (outputs and temp targets) independently gets one of {absent, stale text, empty, random text, prefix of the right content cut at 0 / 1 / inside a multi-byte character / middle / len-1, random bytes incl. invalid UTF-8, right content + garbage}, then Build or InMemoryBuild must succeed and reproduce the reference bytes at every generated path; build twice == build once. (2) crash points through the CLI: the build is aborted at every k-th hook event (task spawn/begin/ready/end, poll, receive and the IO points after output creation, before output completion, before temp write) via TXTPP_VERIF=abort-at=k, and killed by SIGKILL (process group) at random offsets while stretched by hook delays; after each crash a plain build must exit 0 and reproduce the reference tree; histories chain up to 3 crashes and an optional source edit. Non-trivial = a pre-state differing from the reference was planted or the crash landed before the build finished; distinct = distinct (project, pre-state assignment | crash point).",
+        rule: "generated successful projects; reference tree = build from no generated files. (1) pre-states: every generated path (outputs and temp targets) independently gets one of {absent, same-length garbage, stale text, empty, random text, prefix of the right content cut at 0 / 1 / inside a multi-byte character / middle / len-1, random bytes incl. invalid UTF-8, right content + garbage}, then Build or InMemoryBuild must succeed and reproduce the reference bytes at every generated path; build twice == build once. (2) crash points through the CLI: the build is aborted at every k-th hook event (task spawn/begin/ready/end, poll, receive and the IO points after output creation, before output completion, before temp write) via TXTPP_VERIF=abort-at=k, and killed by SIGKILL (process group) at random offsets while stretched by hook delays; after each crash a plain build must exit 0 and reproduce the reference tree; histories chain up to 3 crashes and an optional source edit. Non-trivial = a pre-state differing from the reference was planted or the crash landed before the build finished; distinct = distinct (project, pre-state assignment | crash point).",
         assumptions: &["D13: generated paths are absent or regular files", "commands deterministic (D7)", "crash = abort()/SIGKILL of the txtpp process group; torn writes inside one write(2) are represented by the prefix pre-states"],
         floor: (300, 5000),
         shards: (16, 16),
@@ -625,12 +629,13 @@ pub fn info_c08() -> PropInfo {
     }
 }
 
-const PRESTATES: [&str; 11] = ["absent", "stale", "empty", "random-text", "prefix-0", "prefix-1", "prefix-in-multibyte", "prefix-mid", "prefix-len-1", "random-bytes-invalid-utf8", "right+garbage"];
+const PRESTATES: [&str; 12] = ["same-length-garbage", "absent", "stale", "empty", "random-text", "prefix-0", "prefix-1", "prefix-in-multibyte", "prefix-mid", "prefix-len-1", "random-bytes-invalid-utf8", "right+garbage"];
 
 fn prestate(kind: &str, good: &[u8], r: &mut StdRng) -> Option<Vec<u8>> {
     let n = good.len();
     match kind {
         "absent" => None,
+        "same-length-garbage" => Some(good.iter().map(|b| if *b == b'\n' { b'\n' } else { b'#' }).collect()),
         "stale" => Some(b"STALE: previous generation\nline two\n".to_vec()),
         "empty" => Some(vec![]),
         "random-text" => Some((0..r.gen_range(1..60)).map(|_| b"abc \n\tTXTPP#x"[r.gen_range(0..13)]).collect()),
@@ -879,7 +884,25 @@ fn c09_project(ctx: &mut Ctx, b: &Built, r: &mut StdRng, histories: usize) {
         let steps = r.gen_range(1..=5);
         let mut hist: Vec<String> = vec![];
         for _ in 0..steps {
-            match r.gen_range(0..9) {
+            match r.gen_range(0..10) {
+                9 => {
+                    // break a source: a tag that is never used (build and needed must both fail)
+                    let s = &srcs[r.gen_range(0..srcs.len())];
+                    let p = b.root.join(s);
+                    let mut t = std::fs::read(&p).unwrap_or_default();
+                    let le: &[u8] = if model::split(&String::from_utf8_lossy(&t)).1 == "\r\n" { b"\r\n" } else { b"\n" };
+                    if !t.is_empty() && !t.ends_with(b"\n") {
+                        t.extend_from_slice(le);
+                    }
+                    t.extend_from_slice(b"<!--e TXTPP#tag NEVERUSED");
+                    t.extend_from_slice(le);
+                    if r.gen_bool(0.5) {
+                        t.extend_from_slice(b"<!--e TXTPP#write stored but never used");
+                        t.extend_from_slice(le);
+                    }
+                    std::fs::write(&p, t).unwrap();
+                    hist.push(format!("break-with-unused-tag {s}"));
+                }
                 0 => {
                     let s = &srcs[r.gen_range(0..srcs.len())];
                     let p = b.root.join(s);
@@ -909,9 +932,16 @@ fn c09_project(ctx: &mut Ctx, b: &Built, r: &mut StdRng, histories: usize) {
                 3 if !temps.is_empty() => {
                     let o = &temps[r.gen_range(0..temps.len())];
                     let mut t = std::fs::read(b.root.join(o)).unwrap_or_default();
-                    t.extend_from_slice(b"tampered temp");
+                    if r.gen_bool(0.5) && !t.is_empty() {
+                        // same length, different content
+                        let i = r.gen_range(0..t.len());
+                        t[i] = if t[i] == b'#' { b'%' } else { b'#' };
+                        hist.push(format!("tamper-temp-same-length {o}"));
+                    } else {
+                        t.extend_from_slice(b"tampered temp");
+                        hist.push(format!("tamper-temp {o}"));
+                    }
                     std::fs::write(b.root.join(o), t).unwrap();
-                    hist.push(format!("tamper-temp {o}"));
                 }
                 4 => {
                     let o = &outs[r.gen_range(0..outs.len())];
